@@ -343,3 +343,31 @@ func init() {
 			Old: "(b[n] != '.' && b[n] != 'e' && b[n] != 'E')", New: "(b[n] != '.' && b[n] != 'e')", Rule: "CASE-SYM"},
 	)
 }
+
+func init() {
+	addMutants(
+		// ---- C18: POOL, GLOBAL, ONCE, DET
+		Mutant{ID: "pool3-marshal-returns-pooled-buffer", Props: []string{"C18"}, File: "arshal.go", Func: "Marshal",
+			Old: "return bytes.Clone(xe.Buf), err", New: "if len(xe.Buf) > 1<<20 {\n\t\treturn xe.Buf, err\n\t}\n\treturn bytes.Clone(xe.Buf), err", Rule: "POOL-3"},
+		Mutant{ID: "pool2-state-reset-skips-names", Props: []string{"C18"}, File: "jsontext/state.go", Func: "state.reset",
+			Old: "\ts.Names.reset()\n", New: "", Rule: "POOL-2"},
+		Mutant{ID: "pool2-new-unreset-field", Props: []string{"C18"}, File: "jsontext/decode.go",
+			Old: "\tStringCache *[256]string // only used when unmarshaling; identical to json.stringCache\n", New: "\tStringCache *[256]string // only used when unmarshaling; identical to json.stringCache\n\n\tlastKind Kind\n", Rule: "POOL-2"},
+		Mutant{ID: "pool2-encodebuffer-carries-maxvalue", Props: []string{"C18"}, File: "jsontext/encode.go", Func: "encoderState.reset",
+			Old: "availBuffer: e.availBuffer, bufStats: e.bufStats}", New: "availBuffer: e.availBuffer, bufStats: e.bufStats, baseOffset: e.baseOffset}", Rule: "POOL-2"},
+		Mutant{ID: "pool1-wrong-pool", Props: []string{"C18"}, File: "arshal.go", Func: "Marshal",
+			Old: "defer export.PutBufferedEncoder(enc)", New: "defer export.PutStreamingEncoder(enc)", Rule: "POOL-1"},
+		Mutant{ID: "pool1-no-release-on-error", Props: []string{"C18"}, File: "jsontext/value.go", Func: "Value.IsValid",
+			Old: "\td := getBufferedDecoder(v, opts...)\n\tdefer putBufferedDecoder(d)\n\t_, errVal := d.ReadValue()\n\t_, errEOF := d.ReadToken()\n", New: "\td := getBufferedDecoder(v, opts...)\n\t_, errVal := d.ReadValue()\n\t_, errEOF := d.ReadToken()\n\tputBufferedDecoder(d)\n", Rule: "POOL-1"},
+		Mutant{ID: "once1-array-marshal-skips-once", Props: []string{"C18"}, File: "arshal_default.go", Func: "makeArrayArshaler",
+			Old: "\t\tonce.Do(init)\n\t\tif err := enc.WriteToken(jsontext.BeginArray); err != nil {", New: "\t\tif err := enc.WriteToken(jsontext.BeginArray); err != nil {", Rule: "ONCE-1"},
+		Mutant{ID: "global1-default-options-mutated", Props: []string{"C18", "C19"}, File: "options.go", Func: "DefaultOptionsV2",
+			Old: "\treturn &jsonopts.DefaultOptionsV2", New: "\tjsonopts.DefaultOptionsV2.Flags.Clear(jsonflags.WithinArshalCall)\n\treturn &jsonopts.DefaultOptionsV2", Rule: "GLOBAL-1"},
+		Mutant{ID: "global1-goroutine", Props: []string{"C18"}, File: "arshal.go", Func: "putStrings",
+			Old: "\tstringsPools.Put(s)", New: "\tgo stringsPools.Put(s)", Rule: "GLOBAL-1"},
+		Mutant{ID: "det1-map-unsorted-for-two", Props: []string{"C18"}, File: "arshal_default.go", Func: "makeMapArshaler",
+			Old: "case !mo.Flags.Get(jsonflags.Deterministic) || n <= 1:", New: "case !mo.Flags.Get(jsonflags.Deterministic) || n <= 2:", Rule: "DET-1"},
+		Mutant{ID: "det1-anymap-ignores-deterministic", Props: []string{"C18"}, File: "arshal_any.go", Func: "marshalObjectAny",
+			Old: "if !mo.Flags.Get(jsonflags.Deterministic) || len(obj) <= 1 {", New: "if !mo.Flags.Get(jsonflags.Deterministic) || !mo.Flags.Get(jsonflags.AllowDuplicateNames) || len(obj) <= 1 {", Rule: "DET-1"},
+	)
+}
